@@ -170,6 +170,23 @@ int main(int argc, char **argv){
         if (!strcmp(shr, "ok")){ char c2[128] = "ok"; if (!chrono_ok(S_, c2)) snprintf(shr, sizeof shr, "BAD:shrunk_%s", c2); }
         if (!strcmp(str, "ok")){ char c2[128] = "ok"; if (!strings_ok(S_, c2)) snprintf(str, sizeof str, "BAD:shrunk_%s", c2 + 4); }
         if (jf) export_json(S_, jf, 2 * idx + 1);
+        /* the same conversion under other contraction settings than those of the recording (conversion time):
+           contract everything by span, by node count, nothing */
+        { dr_options saved = GS.opts; int cs;
+          for (cs = 0; cs < 3 && !strcmp(shr, "ok"); cs++){
+            dr_pi_dag S2[1]; long ec[dr_dag_edge_kind_max]; char c2[128] = "ok";
+            GS.opts = saved;
+            if (cs == 0){ GS.opts.collapse_max = (1L << 60); GS.opts.uncollapse_min = (1L << 61); GS.opts.collapse_max_count = 0; }
+            else if (cs == 1){ GS.opts.collapse_max = 0; GS.opts.uncollapse_min = 0; GS.opts.collapse_max_count = 2; }
+            else { GS.opts.collapse_max = 0; GS.opts.uncollapse_min = 0; GS.opts.collapse_max_count = 0; }
+            dr_copy_pi_dag(S2, R);
+            edge_totals(S2, ec);
+            if (S2->T[0].info.t_1 != R->T[0].info.t_1 || S2->T[0].info.t_inf != R->T[0].info.t_inf) sprintf(shr, "BAD:conversion_setting_%d_root_totals_changed", cs);
+            for (k_ = 0; k_ < dr_dag_edge_kind_max; k_++) if (ea[k_] != ec[k_]) sprintf(shr, "BAD:conversion_setting_%d_edges_of_kind_%d_%ld_became_%ld", cs, k_, ea[k_], ec[k_]);
+            if (!strcmp(shr, "ok") && !chrono_ok(S2, c2)) snprintf(shr, sizeof shr, "BAD:conversion_setting_%d_%s", cs, c2);
+            dr_destroy_pi_dag(S2);
+          }
+          GS.opts = saved; }
       }
       printf("%ld work=%ld tinf=%ld create=%ld wait=%ld end=%ld nodes=%ld matnodes=%ld e_end=%ld e_create=%ld e_create_cont=%ld e_wait_cont=%ld e_other_cont=%ld roundtrip=%s chrono=%s shrink=%s strings=%s\n", idx,
              stat_val(sbuf, "work (T1)"), stat_val(sbuf, "critical_path (T_inf)"), stat_val(sbuf, "create_task "), stat_val(sbuf, "wait_tasks "), stat_val(sbuf, "end_task "),
